@@ -296,6 +296,19 @@ func c03period(c *Ctx) {
 				if m.Kind != px.KBinOp || m.Op != token.REM || !px.IsFieldLoad(m.Y.Strip(true), "period", nil) {
 					return false, "the aligned remainder is not taken modulo the period"
 				}
+				// the dividend is the LOCAL time in seconds: now.Unix() + zone offset
+				got := anf(p, m.X, func(s *px.Sym) string {
+					if s.Kind == px.KCall && shortName(s.Call) == "time.(Time).Unix" {
+						return "unix"
+					}
+					if s.Kind == px.KExtract && s.Index == 1 && s.X.Kind == px.KCall && shortName(s.X.Call) == "time.(Time).Zone" {
+						return "offset"
+					}
+					return ""
+				}).String()
+				if got != "1·offset + 1·unix" {
+					return false, "the aligned window is not computed from local time (now.Unix() + zone offset): " + got + " — the period boundary moves away from local midnight and quota used before it is granted again"
+				}
 			default:
 				return false, "align flag not tested"
 			}
